@@ -37,7 +37,8 @@ class SetupCfgWriter(DependencyWriter):
             logger.debug("Unable to add dependencies to setup.cfg file.")
             return None
 
-        with open(self.path, "r", encoding="utf-8") as f:
+        # no newline translation: lines that are not edited keep their own line ending
+        with open(self.path, "r", encoding="utf-8", newline="") as f:
             original_lines = f.readlines()
 
         if not (
@@ -50,7 +51,7 @@ class SetupCfgWriter(DependencyWriter):
 
         if not dry_run:
             try:
-                with open(self.path, "w", encoding="utf-8") as f:
+                with open(self.path, "w", encoding="utf-8", newline="") as f:
                     f.writelines(new_lines)
             except Exception:
                 logger.debug("Unable to add dependencies to setup.cfg file.")
@@ -96,10 +97,11 @@ class SetupCfgWriter(DependencyWriter):
             logger.debug("Unable to add dependencies to setup.cfg file.")
             return None
 
+        eol = "\r\n" if original_lines[last_dep_idx].endswith("\r\n") else "\n"
         if newline_separated:
             formatting = find_leading_whitespace(original_lines[last_dep_idx])
             new_deps = [
-                f"{formatting}{dep.requirement}{dep_sep}" for dep in dependencies_to_add
+                f"{formatting}{dep.requirement}{eol}" for dep in dependencies_to_add
             ]
             new_lines = (
                 original_lines[: last_dep_idx + 1]
@@ -111,7 +113,7 @@ class SetupCfgWriter(DependencyWriter):
             new_dep = ",".join(
                 [f"{dep.requirement}{dep_sep}" for dep in dependencies_to_add]
             )
-            new_dep_line = f"{original_lines[last_dep_idx].rstrip()}, {new_dep}\n"
+            new_dep_line = f"{original_lines[last_dep_idx].rstrip()}, {new_dep}{eol}"
             new_lines = (
                 original_lines[:last_dep_idx]
                 + [new_dep_line]
